@@ -16,7 +16,7 @@ ASSUMPTIONS = ["models/device103.py: 103 9.7.2 left-aligned input value with rep
                "'healthy' device = answers QUERY DEVICE STATUS cleanly with neither 'short address is mask' nor 'reset state'"]
 EXHAUSTIVE = {"quick": False, "thorough": False}
 REQUIRED_ANCHORS = {"all": ["input_values_checked", "filters_8", "filters_16", "filters_24", "query_filters_checked",
-                            "schemes_checked", "discovery_runs", "discovery_faults", "sequence_faults"]}
+                            "schemes_checked", "discovery_runs", "discovery_faults", "sequence_faults", "interleaved_pairs"]}
 SHARD_TIMEOUT = {"quick": 600, "thorough": 3000}
 
 
@@ -27,6 +27,7 @@ def plan(tier, seed):
     for w in (8, 16, 24):
         sh.append({"kind": "filters", "width": w, "n": 1500 if tier == "quick" else 6000})
     sh.append({"kind": "schemes"})
+    sh.append({"kind": "interleaved", "n": 300 if tier == "quick" else 5000})
     nd = 8 if tier == "quick" else 64
     for p in range(nd):
         sh.append({"kind": "discovery", "part": p, "n": (640 if tier == "quick" else 12800) // nd})
@@ -474,7 +475,10 @@ def run_discovery(desc, seed, res):
             cmd = hit_cmd.get("cmd")
             if cmd is not None:
                 a = cmd.destination.address if hasattr(cmd.destination, "address") else None
-                untouched = {k: v for k, v in want.items() if k[0] != a}
+                # a fault on a per-instance question costs that instance only; on a per-device question, the device
+                inst_no = getattr(getattr(cmd, "instance", None), "value", None) if type(cmd).__name__ in (
+                    "QueryInstanceEnabled", "QueryInstanceType") else None
+                untouched = {k: v for k, v in want.items() if k[0] != a or (inst_no is not None and k[1] != inst_no)}
                 lost = {k: v for k, v in untouched.items() if k not in got2}
                 if lost:
                     res.violation("C13/discovery-fault/unrelated-entry-lost", f"{fk} at command {pos} ({type(cmd).__name__} to {a}): "
@@ -484,6 +488,53 @@ def run_discovery(desc, seed, res):
                 res.violation("C13/discovery-fault/not-bracketed", f"scan with a fault did not end with StopQuiescentMode", wit)
         if t == 0:
             res.sample(wit)
+
+
+def run_interleaved(desc, seed, res):
+    from props import pairs
+    from dali import address
+    from dali.device.sequences import SetEventFilters, QueryEventFilters, query_input_value, SetEventSchemes
+    from dali.device.helpers import DeviceInstanceTypeMapper
+    from dali.device import pushbutton
+    from models.bus import Bus
+    E24 = mk_filter_enum(24)
+    E16 = mk_filter_enum(16)
+
+    def inst_state(dev):
+        return [(x.filter, x.scheme) for x in dev.instances]
+
+    def mk_setf(rr):
+        sa, idx, E = rr.randrange(64), rr.randrange(8), rr.choice([E24, E16, pushbutton.InstanceEventFilter])
+        w = E.dali_width()
+        allbits = 0
+        for m in E:
+            allbits |= int(m)
+        bus, dev, other = many_instances(sa, idx, 8, itype=1, filt=rr.getrandbits(24) % (1 << (8 * ((w + 7) // 8))), filter_bits=8 * ((w + 7) // 8))
+        dev.dtr0, dev.dtr1, dev.dtr2 = rr.getrandbits(8), rr.getrandbits(8), rr.getrandbits(8)
+        return bus, SetEventFilters(sa, idx, E(rr.getrandbits(24) & allbits)), lambda: inst_state(dev)
+
+    def mk_qf(rr):
+        sa, idx, E = rr.randrange(64), rr.randrange(8), rr.choice([E24, E16])
+        bus, dev, other = many_instances(sa, idx, 8, itype=1, filt=rr.getrandbits(E.dali_width()), filter_bits=E.dali_width())
+        return bus, QueryEventFilters(sa, idx, E), lambda: inst_state(dev)
+
+    def mk_input(rr):
+        sa, idx, resolution = rr.randrange(64), rr.randrange(8), rr.randint(1, 32)
+        bus, dev, other = many_instances(sa, idx, 8, itype=4, resolution=resolution, value=rr.getrandbits(resolution))
+        return bus, query_input_value(sa, idx, resolution if rr.random() < 0.5 else None), lambda: inst_state(dev)
+
+    def mk_scheme(rr):
+        sa, idx = rr.randrange(64), rr.randrange(8)
+        bus, dev, other = many_instances(sa, idx, 8, itype=1, scheme=rr.randrange(5))
+        return bus, SetEventSchemes(sa, idx, rr.randrange(5)), lambda: inst_state(dev)
+
+    def mk_disc(rr):
+        devs = make_population(rr)[:6]
+        m = DeviceInstanceTypeMapper()
+        return Bus(devs, bound=64 * 70 + 10), m.autodiscover(), lambda: sorted(m.mapping.items())
+    pairs.differential(res, "C13", rng(seed, "C13", "interleaved"),
+                       {"SetEventFilters": mk_setf, "QueryEventFilters": mk_qf, "query_input_value": mk_input,
+                        "SetEventSchemes": mk_scheme, "autodiscover": mk_disc}, desc["n"])
 
 
 def run_shard(desc, tier, seed):
@@ -503,6 +554,8 @@ def run_shard(desc, tier, seed):
         run_filters(desc, seed, res)
     elif k == "schemes":
         run_schemes(seed, res)
+    elif k == "interleaved":
+        run_interleaved(desc, seed, res)
     else:
         run_discovery(desc, seed, res)
     return res
